@@ -94,6 +94,42 @@ func oracleC12(c *CaseC12) *Failure {
 		if string(out) != string(r.Bytes) {
 			return failf(sig+"/encode-bytes", "key %q: encoder wrote %d bytes, the pinned type's empty part renders to %d", c.Key, len(out), len(r.Bytes))
 		}
+	case "enc-absent-nested":
+		// V is a FRAME whose body is the holder with key c.Key and an absent extension: the extension type must be
+		// chosen by the body's own key, whatever the frame's message type says
+		r := Render(c.V, nil)
+		out, obj, err, pan := LibEncode(c.V)
+		if pan != nil {
+			return failf(sig+"/encode-panic", "key %q (holder inside its frame, extension absent): Encode panicked: %v", c.Key, pan)
+		}
+		if r.MustError {
+			if err == nil {
+				return failf(sig+"/encode-unregistered-accepted", "holder inside its frame with unregistered key %q and absent extension: Encode succeeded (%d bytes) instead of returning an error", c.Key, len(out))
+			}
+			return nil
+		}
+		if r.MayError {
+			return nil
+		}
+		if err != nil {
+			return failf(sig+"/encode-registered-rejected", "holder inside its frame with registered key %q and absent extension: Encode returned %v", c.Key, err)
+		}
+		fts := Types[c.V.Type]
+		after, cerr := FromStruct(obj, c.V.Type)
+		if cerr != nil {
+			return failf(sig+"/encode-wrong-type", "key %q: %v", c.Key, cerr)
+		}
+		body := after.F[fts.DynIndex()].O
+		if body == nil || body.Type != c.Holder || body.F[di].O == nil || body.F[di].O.Type != want {
+			gt := "<nil>"
+			if body != nil && body.F[di].O != nil {
+				gt = body.F[di].O.Type
+			}
+			return failf(sig+"/encode-wrong-type", "holder inside its frame (message type %s), key %q: encoder filled in %s, pinned type is %s", KeyOf(c.V, fts, &fts.Fields[fts.DynIndex()], false), c.Key, gt, want)
+		}
+		if string(out) != string(r.Bytes) {
+			return failf(sig+"/encode-bytes", "holder inside its frame, key %q: encoder wrote %d bytes, the schema renders %d", c.Key, len(out), len(r.Bytes))
+		}
 	case "roundtrip":
 		out, _, err, pan := LibEncode(c.V)
 		if err != nil || pan != nil {
@@ -212,6 +248,71 @@ func TestC12(t *testing.T) {
 							c := &CaseC12{Table: tb.QName, Holder: holder, Key: k2, Dir: dir, V: holderWithKey(seed+ki, tb, k2, dir == "dec", someType)}
 							c12Record(c, "registered-key-with-one-syntax-character")
 							Direct(t, "C12", "c12", fmt.Sprintf("syntax/%s/%q/%s", tb.QName, k2, dir), c, oracleC12)
+						}
+					}
+				}
+			}
+		}
+		// holders inside their frames: every (frame message type that carries the holder) x (holder key), extension absent
+		for ti, ftb := range TableList {
+			if !MyShare(ti) || ftb.KeyType == "text" {
+				continue
+			}
+			frame := holderOf(ftb)
+			fts := Types[frame]
+			seenPair := map[string]bool{}
+			for _, k1 := range ftb.Order {
+				h := ftb.TypeFor(k1)
+				hts := Types[h]
+				if hts.DynIndex() < 0 {
+					continue
+				}
+				htb := TableOf(hts, &hts.Fields[hts.DynIndex()])
+				keys := append([]string{}, htb.Order...)
+				keys = append(keys, "", "999", "02")
+				for ki, k2 := range keys {
+					if ki%3 != 0 && seenPair[h+k2] { // each holder key under at least one frame type, a third of them under every one
+						continue
+					}
+					seenPair[h+k2] = true
+					fv := Zero(frame)
+					setKey(fv, fts, fts.FieldIndex(fts.Fields[fts.DynIndex()].Disc), k1)
+					hv := holderWithKey(seed+ki, htb, k2, false, "")
+					fv.F[fts.DynIndex()].O = hv
+					c := &CaseC12{Table: htb.QName, Holder: h, Key: k2, Dir: "enc-absent-nested", V: fv}
+					c12Record(c, "holder-inside-its-frame")
+					Direct(t, "C12", "c12", fmt.Sprintf("nested/%s/%s/%q", frame, k1, k2), c, oracleC12)
+				}
+			}
+		}
+		// fragments of sibling message names glued to a registered key ("Ack031" for the table of TradeCaptureReport,
+		// whose sibling TradeCaptureReportAck registers "031"): not registered values
+		for ti, tb := range TableList {
+			if !MyShare(ti) || tb.KeyType != "text" {
+				continue
+			}
+			h1 := Types[holderOf(tb)].Name
+			for _, tb2 := range TableList {
+				if tb2.Module != tb.Module || tb2.KeyType != "text" {
+					continue
+				}
+				h2 := Types[holderOf(tb2)].Name
+				var frags []string
+				if len(h2) > len(h1) && h2[:len(h1)] == h1 {
+					frags = append(frags, h2[len(h1):])
+				}
+				if len(h1) > len(h2) && h1[:len(h2)] == h2 {
+					frags = append(frags, h1[len(h2):])
+				}
+				for _, fr := range frags {
+					for ki, key := range tb2.Order {
+						for _, k2 := range []string{fr + key, key + fr} {
+							if tb.TypeFor(k2) != "" {
+								continue
+							}
+							c := &CaseC12{Table: tb.QName, Holder: holderOf(tb), Key: k2, Dir: "enc-absent", V: holderWithKey(seed+ki, tb, k2, false, "")}
+							c12Record(c, "sibling-name-fragment-glued-to-a-key")
+							Direct(t, "C12", "c12", fmt.Sprintf("fragment/%s/%q", tb.QName, k2), c, oracleC12)
 						}
 					}
 				}
